@@ -124,7 +124,7 @@ def run(ctx):
     hv = [{"id": v["id"], "op": "parse", "hex": cl.hx(v["nb"]), "flags": flags, "wb": [], "names": 0, "legacy": 0}
           for v in vecs]
     res, _ = cl.run_harness(ctx, exe, "c04_parse", hv, timeout=1200)
-    for vid, sig, text in cl.safety_findings(res):
+    for vid, sig, text in cl.confirmed_safety(ctx, exe, hv, res):
         ctx.violation("c04." + sig, text, replay_content=_replay(vecs, vid))
     stats = {"WF": 0, "Lenient": 0, "Malformed": 0, "wf_accepted_equal": 0, "lenient_accepted_equal": 0,
              "lenient_rejected": 0, "malformed_accepted": 0, "malformed_rejected": 0}
@@ -200,7 +200,7 @@ def run(ctx):
     bases = [v for v in cl.base_records(vecs) if v["fam"] == "names" or (v["fam"] == "api" and v["idx"] >= 2)]
     bv = [{"id": "b|" + v["id"], "op": "build", "rec": cl.ref_to_canon(v["rec"]), "prefixes": []} for v in bases]
     bres, _ = cl.run_harness(ctx, exe, "c04_build", bv, timeout=600)
-    for vid, sig, text in cl.safety_findings(bres):
+    for vid, sig, text in cl.confirmed_safety(ctx, exe, bv, bres):
         ctx.violation("c04." + sig, text)
     for v in bases:
         r = bres.get("b|" + v["id"])
